@@ -1,4 +1,427 @@
-//! factory-level cases (filled in with the factory model)
-pub fn fac_case(_line: &str) -> String {
-    "TODO".to_string()
+//! Factory-level cases: factory expression trees are interpreted with the REAL factory
+//! combinators over scripted leaf factories; every level is type-erased with `boxed::factory`.
+use std::cell::RefCell;
+use std::future::Future;
+use std::marker::PhantomData;
+use std::panic::{catch_unwind, AssertUnwindSafe};
+use std::pin::Pin;
+use std::rc::Rc;
+use std::sync::Arc;
+use std::task::{Context, Poll};
+
+use actix_service::boxed::{self, BoxFuture, BoxServiceFactory};
+use actix_service::{
+    apply, apply_cfg, apply_cfg_factory, apply_fn, apply_fn_factory, fn_factory, fn_factory_with_config,
+    fn_service, map_config, unit_config, Service, ServiceExt, ServiceFactory, ServiceFactoryExt, Transform,
+    TransformExt,
+};
+
+use crate::sx::{self, Sx};
+use crate::{
+    build, log, mk_waker, parse_res, parse_rs, run_ops, take_log, wid, Beh, Leaf, LeafFut, Mapper, PostFut, Rans,
+    BS, FUEL, Z,
+};
+
+pub type BF<C> = BoxServiceFactory<C, Z, Z, Z, Z>;
+
+/// config values: `()` or a number
+pub trait CfgLike: Clone + 'static {
+    fn opt(&self) -> Option<Z>;
+    fn map(self, m: Mapper) -> Self;
+    fn parse(s: &str) -> Self;
 }
+impl CfgLike for () {
+    fn opt(&self) -> Option<Z> {
+        None
+    }
+    fn map(self, _m: Mapper) -> Self {
+        panic!("map_config over the unit config is not expressible")
+    }
+    fn parse(s: &str) -> Self {
+        assert!(s == "u");
+    }
+}
+impl CfgLike for Z {
+    fn opt(&self) -> Option<Z> {
+        Some(*self)
+    }
+    fn map(self, m: Mapper) -> Self {
+        m.app('c', self)
+    }
+    fn parse(s: &str) -> Self {
+        s.parse().unwrap()
+    }
+}
+fn show_cfg(c: Option<Z>) -> String {
+    match c {
+        None => "u".to_string(),
+        Some(z) => format!("{z}"),
+    }
+}
+
+// ---------------------------------------------------------------------------------------------
+// scripted leaf factory
+// ---------------------------------------------------------------------------------------------
+#[derive(Clone)]
+struct FBeh {
+    fd: Z,
+    fdm: Z,
+    fec: Z,
+    rs: String,
+    beh: Beh,
+}
+
+/// a scripted init future: Pending^k, then Ready(out()); a poll after completion is recorded
+struct ScriptFut<T> {
+    id: usize,
+    k: usize,
+    done: bool,
+    out: Box<dyn Fn() -> Result<T, Z>>,
+}
+impl<T> Future for ScriptFut<T> {
+    type Output = Result<T, Z>;
+    fn poll(self: Pin<&mut Self>, cx: &mut Context<'_>) -> Poll<Self::Output> {
+        let this = unsafe { self.get_unchecked_mut() }; // no field is structurally pinned
+        let w = wid(cx);
+        if this.done {
+            log(format!("y{}@{}", this.id, w));
+            return Poll::Ready((this.out)());
+        }
+        if this.k == 0 {
+            this.done = true;
+            log(format!("i{}@{}:d", this.id, w));
+            Poll::Ready((this.out)())
+        } else {
+            this.k -= 1;
+            log(format!("i{}@{}:p", this.id, w));
+            Poll::Pending
+        }
+    }
+}
+
+fn leaf_start(id: usize, fb: &FBeh, cfg: Option<Z>) -> ScriptFut<Leaf> {
+    log(format!("n{}({})", id, show_cfg(cfg)));
+    let z = cfg.unwrap_or(0);
+    let k = (fb.fd + fb.fdm * z).rem_euclid(3) as usize;
+    let fail = fb.fec >= 0 && z.rem_euclid(3) == fb.fec;
+    let fb = fb.clone();
+    ScriptFut {
+        id,
+        k,
+        done: false,
+        out: Box::new(move || {
+            if fail {
+                Err(200 + z)
+            } else {
+                Ok(Leaf { id, rs: RefCell::new(parse_rs(&fb.rs)), beh: fb.beh.with_off(z) })
+            }
+        }),
+    }
+}
+
+struct LeafFactory<C> {
+    id: usize,
+    fb: FBeh,
+    _c: PhantomData<C>,
+}
+impl<C: CfgLike> ServiceFactory<Z> for LeafFactory<C> {
+    type Response = Z;
+    type Error = Z;
+    type Config = C;
+    type Service = Leaf;
+    type InitError = Z;
+    type Future = ScriptFut<Leaf>;
+    fn new_service(&self, cfg: C) -> Self::Future {
+        leaf_start(self.id, &self.fb, cfg.opt())
+    }
+}
+
+// ---------------------------------------------------------------------------------------------
+// apply_cfg / apply_cfg_factory closure
+// ---------------------------------------------------------------------------------------------
+fn cfg_fn<C: CfgLike>(id: usize, k: usize, fail: Option<Z>) -> impl Fn(C, &Rc<BS>) -> ScriptFut<BS> + Clone {
+    move |cfg: C, svc: &Rc<BS>| {
+        log(format!("g{}({})", id, show_cfg(cfg.opt())));
+        let z = cfg.opt().unwrap_or(0);
+        let rc = svc.clone();
+        ScriptFut {
+            id,
+            k,
+            done: false,
+            out: Box::new(move || match fail {
+                Some(e) => Err(e),
+                None => {
+                    let m = Mapper::Add(z);
+                    Ok(boxed::service(rc.clone().map(move |v| m.app('o', v))))
+                }
+            }),
+        }
+    }
+}
+
+/// adapter: a factory whose services are `Rc<BS>` (so that the apply_cfg_factory closure can keep one)
+struct RcFac(BF<()>);
+struct RcFut(BoxFuture<Result<BS, Z>>);
+impl Future for RcFut {
+    type Output = Result<Rc<BS>, Z>;
+    fn poll(mut self: Pin<&mut Self>, cx: &mut Context<'_>) -> Poll<Self::Output> {
+        self.0.as_mut().poll(cx).map(|r| r.map(Rc::new))
+    }
+}
+impl ServiceFactory<Z> for RcFac {
+    type Response = Z;
+    type Error = Z;
+    type Config = ();
+    type Service = Rc<BS>;
+    type InitError = Z;
+    type Future = RcFut;
+    fn new_service(&self, _: ()) -> RcFut {
+        RcFut(self.0.new_service(()))
+    }
+}
+
+// ---------------------------------------------------------------------------------------------
+// the harness Transform.  `TransformExt::map_init_err` is only implemented for `T: Transform<T, Req>`,
+// so the transform is at the same time the type of the services it wraps ("Dual").
+// ---------------------------------------------------------------------------------------------
+#[derive(Clone)]
+struct TSpec {
+    id: usize,
+    k: usize,
+    fail: Option<Z>,
+    pre: Mapper,
+    post: Mapper,
+}
+struct Dual {
+    svc: Option<Rc<BS>>,
+    spec: Option<TSpec>,
+}
+impl Service<Z> for Dual {
+    type Response = Z;
+    type Error = Z;
+    type Future = BoxFuture<Result<Z, Z>>;
+    fn poll_ready(&self, cx: &mut Context<'_>) -> Poll<Result<(), Z>> {
+        self.svc.as_ref().unwrap().poll_ready(cx)
+    }
+    fn call(&self, req: Z) -> Self::Future {
+        self.svc.as_ref().unwrap().call(req)
+    }
+}
+impl Transform<Dual, Z> for Dual {
+    type Response = Z;
+    type Error = Z;
+    type Transform = Dual;
+    type InitError = Z;
+    type Future = ScriptFut<Dual>;
+    fn new_transform(&self, service: Dual) -> Self::Future {
+        let spec = self.spec.clone().unwrap();
+        log(format!("t{}", spec.id));
+        let inner: Rc<BS> = service.svc.unwrap();
+        ScriptFut {
+            id: spec.id,
+            k: spec.k,
+            done: false,
+            out: Box::new(move || match spec.fail {
+                Some(e) => Err(e),
+                None => {
+                    let (pre, post) = (spec.pre, spec.post);
+                    let s = apply_fn(inner.clone(), move |req: Z, svc: &Rc<BS>| {
+                        let fut = svc.call(pre.app('a', req));
+                        PostFut::new(fut, post)
+                    });
+                    Ok(Dual { svc: Some(Rc::new(boxed::service(s))), spec: None })
+                }
+            }),
+        }
+    }
+}
+/// adapter: the services of the inner factory as `Dual`s
+struct DualFac<C>(BF<C>);
+struct DualFut(BoxFuture<Result<BS, Z>>);
+impl Future for DualFut {
+    type Output = Result<Dual, Z>;
+    fn poll(mut self: Pin<&mut Self>, cx: &mut Context<'_>) -> Poll<Self::Output> {
+        self.0.as_mut().poll(cx).map(|r| r.map(|s| Dual { svc: Some(Rc::new(s)), spec: None }))
+    }
+}
+impl<C: CfgLike> ServiceFactory<Z> for DualFac<C> {
+    type Response = Z;
+    type Error = Z;
+    type Config = C;
+    type Service = Dual;
+    type InitError = Z;
+    type Future = DualFut;
+    fn new_service(&self, cfg: C) -> DualFut {
+        DualFut(self.0.new_service(cfg))
+    }
+}
+
+// ---------------------------------------------------------------------------------------------
+// factory expressions -> real combinators
+// ---------------------------------------------------------------------------------------------
+fn optz(s: &str) -> Option<Z> {
+    if s == "-" {
+        None
+    } else {
+        Some(s.parse().unwrap())
+    }
+}
+
+pub fn build_fac<C: CfgLike>(x: &Sx) -> BF<C> {
+    let l = x.list();
+    match l[0].atom() {
+        "FL" => {
+            let id: usize = l[1].atom().parse().unwrap();
+            let fb = FBeh {
+                fd: l[3].atom().parse().unwrap(),
+                fdm: l[4].atom().parse().unwrap(),
+                fec: l[5].atom().parse().unwrap(),
+                rs: l[6].atom().to_string(),
+                beh: Beh::parse(l[7].atom(), l[8].atom(), l[9].atom(), l[10].atom()),
+            };
+            match l[2].atom() {
+                "d" => boxed::factory(LeafFactory::<C> { id, fb, _c: PhantomData }),
+                "n" => boxed::factory(fn_factory::<_, C, Leaf, Z, _, Z>(move || leaf_start(id, &fb, None))),
+                "c" => boxed::factory(fn_factory_with_config::<_, _, C, Leaf, Z, Z>(move |cfg: C| {
+                    leaf_start(id, &fb, cfg.opt())
+                })),
+                k => panic!("lkind {k}"),
+            }
+        }
+        "FS" => {
+            let id: usize = l[1].atom().parse().unwrap();
+            let beh = Beh::parse(l[2].atom(), l[3].atom(), l[4].atom(), l[5].atom());
+            // InitError of fn_service is (); it never fails, map_init_err only converts the type
+            boxed::factory(
+                fn_service::<_, _, Z, Z, Z, C>(move |req: Z| LeafFut::start(id, &beh, req)).map_init_err(|()| -1),
+            )
+        }
+        "FA" => boxed::factory(build_fac::<C>(&l[1]).and_then(build_fac::<C>(&l[2]))),
+        "FM" => {
+            let m = Mapper::parse(l[1].atom());
+            boxed::factory(build_fac::<C>(&l[2]).map(move |v| m.app('o', v)))
+        }
+        "FE" => {
+            let m = Mapper::parse(l[1].atom());
+            boxed::factory(build_fac::<C>(&l[2]).map_err(move |e| m.app('e', e)))
+        }
+        "FI" => {
+            let m = Mapper::parse(l[1].atom());
+            boxed::factory(build_fac::<C>(&l[2]).map_init_err(move |e| m.app('i', e)))
+        }
+        "FP" => {
+            let pre = Mapper::parse(l[1].atom());
+            let post = Mapper::parse(l[2].atom());
+            boxed::factory(apply_fn_factory(build_fac::<C>(&l[3]), move |req: Z, svc: &BS| {
+                let fut = svc.call(pre.app('a', req));
+                PostFut::new(fut, post)
+            }))
+        }
+        "FK" => {
+            let r = parse_res(l[1].atom());
+            boxed::factory(apply_fn_factory(build_fac::<C>(&l[2]), move |_req: Z, _svc: &BS| std::future::ready(r)))
+        }
+        "FC" => {
+            let m = Mapper::parse(l[1].atom());
+            boxed::factory(map_config(build_fac::<C>(&l[2]), move |c: C| c.map(m)))
+        }
+        "FU" => boxed::factory(unit_config::<_, _, C, Z>(build_fac::<()>(&l[1]))),
+        "FG" => {
+            let s = Rc::new(build(&l[1]));
+            let f = cfg_fn::<C>(l[2].atom().parse().unwrap(), l[3].atom().parse().unwrap(), optz(l[4].atom()));
+            boxed::factory(apply_cfg(s, f))
+        }
+        "FH" => {
+            let inner = RcFac(build_fac::<()>(&l[1]));
+            let f = cfg_fn::<C>(l[2].atom().parse().unwrap(), l[3].atom().parse().unwrap(), optz(l[4].atom()));
+            boxed::factory(apply_cfg_factory(inner, f))
+        }
+        "FT" => {
+            let spec = TSpec {
+                id: l[1].atom().parse().unwrap(),
+                k: l[2].atom().parse().unwrap(),
+                fail: optz(l[3].atom()),
+                pre: Mapper::parse(l[6].atom()),
+                post: Mapper::parse(l[7].atom()),
+            };
+            let rc = l[4].atom() == "1";
+            let mie = if l[5].atom() == "-" { None } else { Some(Mapper::parse(l[5].atom())) };
+            let inner = DualFac(build_fac::<C>(&l[8]));
+            let t = Dual { svc: None, spec: Some(spec) };
+            match (rc, mie) {
+                (false, None) => boxed::factory(apply(t, inner)),
+                (true, None) => boxed::factory(apply(Rc::new(t), inner)),
+                (false, Some(m)) => boxed::factory(apply(t.map_init_err(move |e| m.app('t', e)), inner)),
+                (true, Some(m)) => boxed::factory(apply(Rc::new(t.map_init_err(move |e| m.app('t', e))), inner)),
+            }
+        }
+        "FW" => {
+            let inner = build_fac::<C>(&l[2]);
+            match l[1].atom() {
+                "bx" => boxed::factory(inner),
+                "rc" => boxed::factory(Rc::new(inner)),
+                "ar" => boxed::factory(Arc::new(inner)),
+                k => panic!("fwrapk {k}"),
+            }
+        }
+        h => panic!("fexpr head {h}"),
+    }
+}
+
+fn run_fac<C: CfgLike>(f: &Sx, cfg: &str, ops: &[&str]) -> String {
+    let fac = build_fac::<C>(f);
+    let cfg = C::parse(cfg);
+    let mut out = Vec::new();
+    let mut w = 0usize;
+    let mut polls = 0;
+    let mut res = "P".to_string();
+    let mut built: Option<BS> = None;
+    match catch_unwind(AssertUnwindSafe(|| fac.new_service(cfg))) {
+        Err(_) => res = "X".to_string(),
+        Ok(mut fut) => {
+            while polls < FUEL {
+                let wk = mk_waker(w);
+                w += 1;
+                polls += 1;
+                let mut cx = Context::from_waker(&wk);
+                match catch_unwind(AssertUnwindSafe(|| fut.as_mut().poll(&mut cx))) {
+                    Ok(Poll::Pending) => {}
+                    Ok(Poll::Ready(Ok(s))) => {
+                        res = "O".to_string();
+                        built = Some(s);
+                        break;
+                    }
+                    Ok(Poll::Ready(Err(e))) => {
+                        res = format!("E{e}");
+                        break;
+                    }
+                    Err(_) => {
+                        res = "X".to_string();
+                        break;
+                    }
+                }
+            }
+            std::mem::forget(fut);
+        }
+    }
+    out.push(format!("N[{}]={}/{}", take_log(), res, polls));
+    if let Some(svc) = built {
+        out.extend(run_ops(&svc, &mut w, ops));
+    }
+    out.join(" ")
+}
+
+pub fn fac_case(line: &str) -> String {
+    let parts: Vec<&str> = line.split(';').map(|s| s.trim()).collect();
+    assert!(parts.len() == 3, "case");
+    let f = sx::parse(parts[0]);
+    let ops: Vec<&str> = parts[2].split_whitespace().collect();
+    if parts[1] == "u" {
+        run_fac::<()>(&f, parts[1], &ops)
+    } else {
+        run_fac::<Z>(&f, parts[1], &ops)
+    }
+}
+
+#[allow(dead_code)]
+fn _unused(_: Rans) {}
